@@ -459,7 +459,7 @@ def jobs_for(prop, tier):
     if prop == "C02":
         j = sched("c02", tier, b, 16) + sched("c02w", tier, b, 8) + sched("c02x", tier, b, 4) + sched("c02t", tier, b, 8) + sched("c07", tier, b, 2) + sched("c16", tier, b, 2) + loom + gen + sched("fine", tier, b, 4) + sched("inwrite", tier, b, 4)
     elif prop == "C09":
-        j = sched("c09", tier, 2 if thorough else 1, 8, 20000) + sched("c02", tier, 2, 16) + sched("c07", tier, 2, 2) + sched("rdfull", tier, 1, 2, 20000) + gen
+        j = sched("c09", tier, 2 if thorough else 1, 8, 20000) + sched("c02", tier, 2, 16) + sched("c07", tier, 2, 2) + sched("rdfull", tier, 1, 2, 20000) + gen + sched("fair", tier, 0, 1)
         # a single thread under the single-thread scheduler (E1): a lock the caller holds
         # itself, a retry loop waiting for nobody, an unbounded loop inside one call are
         # violations instead of hangs; every call sequence of the C01 space (sync cache)
